@@ -3,7 +3,7 @@
   (literal words over a safe alphabet, single quotes, simple commands, lists, `&&` `||` `|` `!`
   `&`, subshell, block), every printer option except KeepPadding.
 -/
-import ShVerif.Proofs.L4Print
+import ShVerif.Proofs.L4PrintGen
 namespace ShVerif.Props.C01
 open ShVerif ShVerif.L4
 
@@ -260,26 +260,51 @@ example : ∃ f : File, f.wf = true ∧ f.stmts.flat = true ∧ f.stmts ≠ .nil
       (.cons (.mk ⟨13, 3, 1⟩ Pos.zero false false (.call [w1 3 "b", w1 5 "c"])) .nil)⟩,
     by decide +kernel, by decide +kernel, by simp⟩
 
-/-! ## Stated, not proved
+/-! ## The round trip for all of fragment F0
 
-  The printer half of the round trip and two parser facts.  They are definitions, not theorems:
-  nothing below is claimed.  `print_in_Prints_statement` carries the side condition (`posMono`) that
-  modelling showed to be necessary (the second one, `noStale`, went away with the repair of
-  C01-single-missing-semicolon); on every run the `specrt` ops check it by execution on the
-  generated in-fragment inputs (model and Go code side by side). -/
+  Subshells `( )` and blocks `{ }` included.  The printer half needs one hypothesis about the
+  positions: line numbers never decrease in source order (`posMono`) — which is what any parser
+  assigns; `roundtrip_fails_positions` shows that it cannot be dropped.  With it both halves are
+  proved for **every** option set (Indent, BinaryNextLine, SwitchCaseIndent, SpaceRedirects,
+  FunctionNextLine, Minify, SingleLine; KeepPadding is not in the model).  The second side
+  condition the statement used to carry (`noStale`, about the `wroteSemi` flag under SingleLine)
+  went away with the repair of C01-single-missing-semicolon: `stmtEnd` now clears the flag. -/
 
 /-- the printer half: what today's printer writes is a concrete syntax of the tree -/
-def print_in_Prints_statement : Prop :=
-  ∀ (o : Opts) (f : File) (b : Bytes), f.wf = true → posMono f → printFile o f = .ok b → Prints f b
+theorem print_in_Prints (o : Opts) (f : File) (b : Bytes) (hwf : f.wf = true) (hmono : posMono f)
+    (hne : f.stmts ≠ .nil) (hp : printFile o f = .ok b) : Prints f b := by
+  obtain ⟨ps, lt, h1, h2, h3, h4, h5⟩ := L4.print_in_Prints_gen o f b hwf hmono hne hp
+  exact ⟨ps, false, lt, h1, h2, h3, h4, h5⟩
 
-/-- what `print_in_Prints` and `parse_of_Prints` give together -/
-def roundtrip_partial_statement : Prop :=
-  ∀ (o : Opts) (l : Lang) (f : File) (b : Bytes), f.wf = true → posMono f → printFile o f = .ok b →
-    ∃ f', parse l b = .ok f' ∧ f'.norm = f.norm
+/-- **Round trip, fragment F0**: for every option set and every tree with monotone line numbers,
+    the printed bytes parse again, in every variant, to a tree with the same norm. -/
+theorem roundtrip_partial (o : Opts) (l : Lang) (f : File) (b : Bytes) (hwf : f.wf = true) (hmono : posMono f)
+    (hne : f.stmts ≠ .nil) (hp : printFile o f = .ok b) : ∃ f', parse l b = .ok f' ∧ f'.norm = f.norm :=
+  parse_of_Prints l f b (print_in_Prints o f b hwf hmono hne hp)
 
-/-- `parse_of_Prints` reduces the second statement to the first -/
-theorem roundtrip_partial_of_print_in_Prints (h : print_in_Prints_statement) : roundtrip_partial_statement :=
-  fun o l f b hw hm hp => parse_of_Prints l f b (h o f b hw hm hp)
+/-- … and printing succeeds unless refused. -/
+theorem roundtrip_partial_total (o : Opts) (hr : refuse o = false) (l : Lang) (f : File) (hwf : f.wf = true)
+    (hmono : posMono f) (hne : f.stmts ≠ .nil) :
+    ∃ b f', printFile o f = .ok b ∧ parse l b = .ok f' ∧ f'.norm = f.norm := by
+  obtain ⟨b, hb⟩ := print_total o hr f hwf
+  obtain ⟨f', h1, h2⟩ := roundtrip_partial o l f b hwf hmono hne hb
+  exact ⟨b, f', hb, h1, h2⟩
+
+/-- the empty file prints as one newline, which parses to the empty file -/
+theorem roundtrip_empty :
+    printFile {} ⟨.nil⟩ = .ok [10] ∧
+    (match parse .bash [10] with | .ok f => f.norm.beq (File.mk .nil).norm | .error _ => false) = true := by
+  constructor <;> decide +kernel
+
+/-- the scrambled witness is excluded by `posMono`, as it must be -/
+example : ¬ posMono scrambledWitness := by
+  unfold posMono
+  decide +kernel
+
+/-! ## Stated, not proved
+
+  Two parser facts.  They are definitions, not theorems: nothing below is claimed
+  (`parse_of_Prints` shows that the fuel suffices on every concrete syntax). -/
 
 /-- fuel `|tokens|·6 + 8` is never used up, on any input -/
 def fuel_sufficient_statement : Prop :=
@@ -290,25 +315,27 @@ def fuel_sufficient_statement : Prop :=
 def parse_WF_statement : Prop :=
   ∀ (l : Lang) (b : Bytes) (f : File), parse l b = .ok f → f.wf = true ∧ posMono f
 
-/-- the scrambled witness is excluded by `posMono`, as it must be -/
-example : ¬ posMono scrambledWitness := by
-  unfold posMono
-  decide +kernel
-
-/-- the hypotheses of the partial statement are satisfiable: `a b; ( c && d ) | { e; }` -/
-example : ∃ f, parse .bash (bytesOfString "a b; ( c && d ) |\n{ e; }\n! 'x y' &\n") = .ok f ∧ f.wf = true := by
+/-- the hypotheses of the round trip are satisfiable: the tree the parser builds for
+    `a b; ( c && d ) |` NEWLINE `{ e; }` NEWLINE `! 'x y' &` is well-formed, has monotone lines and
+    is not empty -/
+example : ∃ f, parse .bash (bytesOfString "a b; ( c && d ) |\n{ e; }\n! 'x y' &\n") = .ok f ∧ f.wf = true ∧
+    posMono f ∧ f.stmts ≠ .nil := by
   cases h : parse .bash (bytesOfString "a b; ( c && d ) |\n{ e; }\n! 'x y' &\n") with
   | error e =>
-    have : isSyntaxError (parse .bash (bytesOfString "a b; ( c && d ) |\n{ e; }\n! 'x y' &\n")) = false ∧
-        (match parse .bash (bytesOfString "a b; ( c && d ) |\n{ e; }\n! 'x y' &\n") with | .ok _ => true | _ => false) = true := by
+    have : (match parse .bash (bytesOfString "a b; ( c && d ) |\n{ e; }\n! 'x y' &\n") with | .ok _ => true | _ => false) = true := by
       decide +kernel
     rw [h] at this
-    exact absurd this.2 (by simp)
+    exact absurd this (by simp)
   | ok f =>
     refine ⟨f, rfl, ?_⟩
     have : (match parse .bash (bytesOfString "a b; ( c && d ) |\n{ e; }\n! 'x y' &\n") with
-        | .ok f => f.wf | _ => false) = true := by decide +kernel
+        | .ok f => f.wf && decide (f.stmts.lines.Pairwise (· ≤ ·)) && decide (f.stmts.length > 0) | _ => false) = true := by
+      decide +kernel
     rw [h] at this
-    simpa using this
+    simp only [Bool.and_eq_true, decide_eq_true_eq] at this
+    refine ⟨this.1.1, this.1.2, ?_⟩
+    intro e
+    rw [e] at this
+    simp [Stmts.length] at this
 
 end ShVerif.Props.C01
